@@ -376,6 +376,20 @@ func (m *machine) exec(op Op) error {
 		if src != nil {
 			c, th = src.c, src.hook
 		}
+		// a waiter: Resolve(ctx) on a live client of this promise, started before the Fulfill
+		var waiter chan error
+		wctx, wcancel := context.WithCancel(context.Background())
+		defer wcancel()
+		for _, hd := range m.handles {
+			if hd.c != nil && !hd.released && final(hd.hook) == p {
+				waiter = make(chan error, 1)
+				go func(c *capnp.Client) { waiter <- c.Resolve(wctx) }(hd.c)
+				for i := 0; i < 10; i++ {
+					runtime.Gosched()
+				}
+				break
+			}
+		}
 		refs := p.refs
 		p.fulfilled, p.target, p.refs = true, th, 0
 		if refs > 0 {
@@ -388,7 +402,24 @@ func (m *machine) exec(op Op) error {
 		if blocking {
 			m.overlap = true
 		}
-		return m.runOp("Fulfill", blocking, func() { p.cp.Fulfill(c) })
+		if err := m.runOp("Fulfill", blocking, func() { p.cp.Fulfill(c) }); err != nil || blocking || waiter == nil {
+			return err
+		}
+		// the promise is resolved: the waiter returns - unless what it resolved to is a promise again, then it goes
+		// on waiting and a cancelled context ends that
+		still := final(p) != nil && final(p).promise
+		if still {
+			wcancel()
+		}
+		select {
+		case werr := <-waiter:
+			if !still && werr != nil {
+				return pbt.Fail("resolve/waiter-error", "Resolve, waiting while the promise was fulfilled, returned %v", werr)
+			}
+		case <-time.After(deadline):
+			return pbt.Fail("hang/Resolve-waiter", "a Resolve() waiting on the promised client did not return after Fulfill (resolved to another promise: %v)", still)
+		}
+		return nil
 	case "state":
 		h, ok := pick(m.handles, op.A)
 		if !ok {
@@ -406,6 +437,38 @@ func (m *machine) exec(op Op) error {
 		want := !h.released && h.c != nil && f != nil
 		if valid != want {
 			return pbt.Fail("isvalid", "IsValid()=%v, model says %v (released=%v)", valid, want, h.released)
+		}
+		// Resolve with a context that is already done: it reports, without waiting, whether the client is resolved
+		quiet := true
+		for _, p := range m.pend {
+			select {
+			case <-p.done:
+			default:
+				quiet = false // a Fulfill is waiting for calls: "resolved" is in flux
+			}
+		}
+		if quiet {
+			ctx, cancel := context.WithCancel(context.Background())
+			cancel()
+			var rerr error
+			if err := m.runOp("Resolve", false, func() { rerr = h.c.Resolve(ctx) }); err != nil {
+				return err
+			}
+			switch {
+			case h.c != nil && h.released:
+				// (a released client whose capability had resolved to null may report either: nothing is left to tell)
+				if f != nil && (rerr == nil || rerr == context.Canceled) {
+					return pbt.Fail("resolve/released", "Resolve on a released client returned %v", rerr)
+				}
+			case h.c == nil || f == nil || !f.promise:
+				if rerr != nil {
+					return pbt.Fail("resolve/resolved", "Resolve on a client whose capability is resolved returned %v", rerr)
+				}
+			default:
+				if rerr != context.Canceled {
+					return pbt.Fail("resolve/unresolved", "Resolve(cancelled context) on a client of an unfulfilled promise returned %v", rerr)
+				}
+			}
 		}
 	}
 	return nil
@@ -569,10 +632,10 @@ func genOps(t *rapid.T, n int) []Op {
 
 var _ = pbt.Register(pbt.Spec[Case]{
 	Property: "C10", Name: "sequential-model",
-	Rule:     "op scripts (up to 40 ops) over a pool of clients: NewClient, NewPromisedClient, AddRef, Release, WeakRef, WeakClient.AddRef, SendCall/RecvCall (the instrumented hook holds a call open until a later 'finish' op), Fulfill(promise, client|nil) incl. chains of promises, IsValid/State, calls through released and null clients; ops predicted to block (last Release / Fulfill while a call is open) run on their own goroutine. Reference model: per hook refs/calls/resolution with reference transfer on Fulfill. Invariant after every step: a hook is shut down iff it has no reference (or is a resolved promise) and no open call - never twice, never during a call, never while referenced; each call is delivered exactly once to the hook the client resolves to or fails with an error answer on released/null clients; WeakClient.AddRef succeeds iff a strong reference remains; every op returns; after wind-down every hook was shut down exactly once. Non-trivial: a last Release/Fulfill overlapped an open call, or references transferred through a promise.",
-	Quick:    6000, Thorough: 60000,
-	Gen:      func(t *rapid.T) Case { return Case{Ops: genOps(t, rapid.IntRange(1, 40).Draw(t, "n"))} },
-	Run:      run,
+	Rule:  "op scripts (up to 40 ops) over a pool of clients: NewClient, NewPromisedClient, AddRef, Release, WeakRef, WeakClient.AddRef, SendCall/RecvCall (the instrumented hook holds a call open until a later 'finish' op), Fulfill(promise, client|nil) incl. chains of promises (a Resolve() waiter on a live client of the promise is started first and must return once it is fulfilled), IsValid/State/Resolve(cancelled context), calls through released and null clients; ops predicted to block (last Release / Fulfill while a call is open) run on their own goroutine. Reference model: per hook refs/calls/resolution with reference transfer on Fulfill. Invariant after every step: a hook is shut down iff it has no reference (or is a resolved promise) and no open call - never twice, never during a call, never while referenced; each call is delivered exactly once to the hook the client resolves to or fails with an error answer on released/null clients; WeakClient.AddRef succeeds iff a strong reference remains; every op returns; after wind-down every hook was shut down exactly once. Non-trivial: a last Release/Fulfill overlapped an open call, or references transferred through a promise.",
+	Quick: 6000, Thorough: 60000,
+	Gen: func(t *rapid.T) Case { return Case{Ops: genOps(t, rapid.IntRange(1, 40).Draw(t, "n"))} },
+	Run: run,
 })
 
 var _ = errors.New
@@ -784,8 +847,8 @@ func runConcurrent(c concCase) (pbt.Result, error) {
 
 var _ = pbt.Register(pbt.Spec[concCase]{
 	Property: "C10", Name: "concurrent-owners",
-	Rule:     "2-6 goroutines, each owning its own references to 1-2 shared capabilities and 0-3 promised clients, run drawn programs of AddRef / Release / WeakRef / WeakClient.AddRef / SendCall / Fulfill (each promise fulfilled by exactly one goroutine, to a real capability or nil) on the handles they own, so the program is well-formed under every interleaving; the library's wait points (verif yield hook) inject 0-3 Gosched calls drawn per case; built with the race detector. Invariants on the merged event log: no Shutdown while a handle that certainly refers to the hook has not begun to be released, none during a call, every call through an owned live handle delivered exactly once, all goroutines finish, every hook shut down exactly once at the end. Non-trivial: >=2 goroutines and >=1 promise.",
-	Quick:    2500, Thorough: 25000,
+	Rule:  "2-6 goroutines, each owning its own references to 1-2 shared capabilities and 0-3 promised clients, run drawn programs of AddRef / Release / WeakRef / WeakClient.AddRef / SendCall / Fulfill (each promise fulfilled by exactly one goroutine, to a real capability or nil) on the handles they own, so the program is well-formed under every interleaving; the library's wait points (verif yield hook) inject 0-3 Gosched calls drawn per case; built with the race detector. Invariants on the merged event log: no Shutdown while a handle that certainly refers to the hook has not begun to be released, none during a call, every call through an owned live handle delivered exactly once, all goroutines finish, every hook shut down exactly once at the end. Non-trivial: >=2 goroutines and >=1 promise.",
+	Quick: 2500, Thorough: 25000,
 	Gen: func(t *rapid.T) concCase {
 		G := rapid.IntRange(2, 6).Draw(t, "G")
 		c := concCase{Caps: rapid.IntRange(1, 2).Draw(t, "caps"), Promises: rapid.IntRange(0, 3).Draw(t, "promises")}
